@@ -77,6 +77,7 @@ func (v *VerifWatcher) HandleWatch(client int) error {
 // Peeks for oracles (called at quiescence / after shutdown, when no other thread runs).
 func (v *VerifWatcher) RegisteredClients() int { return len(v.w.wsclients) }
 func (v *VerifWatcher) ClientsWGCounter() int  { return v.w.wsclientsWG.Counter() }
+func (v *VerifWatcher) Closing() bool          { return v.w.closing }
 func (v *VerifWatcher) ListenerClosed() bool {
 	l, _ := v.w.l.(*verifListener)
 	return l != nil && l.closed
